@@ -50,7 +50,7 @@ ErrRef(x) == IF x.prefix \in {"int", "none", "bytes"} THEN "TypeError"
 (* parse_host_port(escape_ipv6(host) + ':' + port) = (host, port); no port -> default *)
 Hosts == {"name", "fqdn", "ipv4", "ipv6", "ipv6_full", "ipv6_scoped", "ipv6_v4mapped"}
 HpCases == {[k |-> "hp", host |-> h, port |-> p, dflt |-> d] :
-              h \in Hosts, p \in {"absent", "0", "1", "80", "65535"}, d \in {"none", "1234"}}
+              h \in Hosts, p \in {"absent", "0", "1", "80", "65535"}, d \in {"none", "1234", "0", "65535"}}
 HpRef(x) == [host |-> x.host, port |-> IF x.port = "absent" THEN x.dflt ELSE x.port]
 EscapeRef(h) == h \in {"ipv6", "ipv6_full", "ipv6_scoped", "ipv6_v4mapped"}      \* bracketed iff IPv6
 
